@@ -56,7 +56,7 @@ def task_spec(draw, focus="timing"):
     clients = draw(st.integers(1, 4))
     spec = {"clients": clients, "stride": draw(st.sampled_from([1, 3, 7])), "seed": draw(st.integers(0, 1000)),
             "perf_offset": draw(st.sampled_from([0.0, 100.0, 123456.5, -750.25])), "on_error": "continue"}
-    mode = draw(st.sampled_from(["iterations"] * 5 + ["time"])) if focus == "timing" else draw(
+    mode = draw(st.sampled_from(["iterations"] * 5 + ["time", "finite-source"])) if focus == "timing" else draw(
         st.sampled_from(["iterations", "iterations", "time", "time", "time", "time", "finite-source", "runner-completion", "default"])
     )
     spec["mode"] = mode
@@ -96,6 +96,16 @@ def task_spec(draw, focus="timing"):
         spec["source_size"] = draw(st.integers(1, 8))
         services = SERVICE_ANY
         max_rate = 1000
+        if clients >= 2 and draw(st.booleans()):
+            # uneven partitions (the bulk source's last clients get shorter slices), and in half of these cases the task is the one
+            # that completes its parallel element: the first client to finish sets "complete", the others carry on to their own end
+            sizes = draw(st.lists(st.integers(1, 8), min_size=clients, max_size=clients))
+            if len(set(sizes)) == 1:
+                sizes[-1] = sizes[0] % 8 + 1
+            spec["source_size"] = sizes
+            spec["completes_parent"] = draw(st.booleans())
+            if spec["completes_parent"]:
+                max_rate = 25
     elif mode == "runner-completion":
         spec["op_type"] = "sim-op-completing"
         spec["runner_completes_after"] = draw(st.integers(1, 6))
